@@ -331,3 +331,67 @@ def handler_arms(try_node: ast.Try) -> list[Arm]:
                 continue
         out.append(Arm(h.type, h.body, h))
     return out
+
+
+def record_fields(fn: FunctionInfo, cls_name: str) -> list[str] | None:
+    """field names of a `typing.NamedTuple` subclass declared in `fn`'s module (annotation order), else None"""
+    mod = getattr(fn, "module", None)
+    tree = getattr(mod, "tree", None) if mod is not None else None
+    if tree is None:
+        return None
+    for n in tree.body:
+        if isinstance(n, ast.ClassDef) and n.name == cls_name and any((dotted(b) or "").split(".")[-1] == "NamedTuple" for b in n.bases):
+            return [s.target.id for s in n.body if isinstance(s, ast.AnnAssign) and isinstance(s.target, ast.Name)]
+    return None
+
+
+def tuple_elts(fn: FunctionInfo, e: ast.AST | None) -> list[ast.AST]:
+    """the element expressions of a returned record: `(a, b, c)` and `_Record(a, b, c)` / `_Record(x=a, y=b, z=c)` (a NamedTuple
+    of the same module, in field order) read the same; any other expression is a one-element record"""
+    if isinstance(e, ast.Tuple):
+        return list(e.elts)
+    if isinstance(e, ast.Call) and isinstance(e.func, ast.Name):
+        fields = record_fields(fn, e.func.id)
+        if fields is not None and not any(isinstance(a, ast.Starred) for a in e.args) and all(k.arg in fields for k in e.keywords):
+            out: list[ast.AST | None] = [None] * len(fields)
+            for i, a in enumerate(e.args[: len(fields)]):
+                out[i] = a
+            for k in e.keywords:
+                out[fields.index(k.arg)] = k.value
+            if all(x is not None for x in out):
+                return out  # type: ignore[return-value]
+    return [e] if e is not None else []
+
+
+def if_arms(root: ast.AST, iff: ast.If) -> tuple[list[ast.stmt], list[ast.stmt]]:
+    """(then-arm, else-arm) of `iff`, reading a guard clause as an if/else: when the then-arm always leaves (continue / break /
+    return / raise) and there is no else, the statements that follow the `if` in its block are the else-arm."""
+    if iff.orelse or not iff.body or not isinstance(iff.body[-1], (ast.Continue, ast.Break, ast.Return, ast.Raise)):
+        return list(iff.body), list(iff.orelse)
+    for n in ast.walk(root):
+        for fld in ("body", "orelse", "finalbody"):
+            blk = getattr(n, fld, None)
+            if isinstance(blk, list) and iff in blk:
+                return list(iff.body), list(blk[blk.index(iff) + 1:])
+    return list(iff.body), []
+
+
+def const_value(fn: FunctionInfo, e: ast.AST | None):
+    """the literal behind `e`: a constant, a single-assignment local bound to one, or a module-level name bound once to one
+    (`_HIGH_WATER: Final[int] = 0`); `...` (Ellipsis) when it is none of those"""
+    for _ in range(3):
+        if isinstance(e, ast.Constant):
+            return e.value
+        if isinstance(e, ast.Name):
+            vals = assignments(fn).get(e.id, []) if not isinstance(fn.node, ast.Lambda) else []
+            if len(vals) == 1:
+                e = vals[0]
+                continue
+            if not vals and e.id in fn.module.assigns:
+                # bound once at module level (no other store to the name anywhere in the module)
+                stores = sum(1 for n in ast.walk(fn.module.tree) if isinstance(n, ast.Name) and n.id == e.id and isinstance(n.ctx, (ast.Store, ast.Del)))
+                if stores == 1:
+                    e = fn.module.assigns[e.id]
+                    continue
+        break
+    return ...
